@@ -27,6 +27,7 @@ from .common import Harness, zbool
 from . import hrun
 
 PROPERTY = 'C12'
+LEVEL = 'fault_enumeration'      # the solver enumerates a schedule / skeleton; the data of a path are concrete (DESIGN.md section 4)
 KINDS = ['pass', 'mismatch', 'exception', 'expected_exception', 'exit_test', 'all_skipped', 'import_failure',
          'system_exit', 'keyboard_interrupt']
 SIDE = ['print', 'nothing', 'replace_stdout', 'replace_and_close_stdout', 'alter_filters', 'await', 'print_then_replace']
